@@ -289,6 +289,10 @@ func Tick() {
 	if ticks > budget {
 		finish("step-budget", ExitStepBudget)
 	}
+	if len(timerq) > 0 && timerq[0].at <= simClock() && !exiting {
+		// time passes while a task computes: a deadline is reached, a ticker ticks
+		fireDue()
+	}
 	if len(tasks) > 1 && ticks-lastSchedTick > preemptTicks && !exiting {
 		// ten simulated milliseconds of computing without a scheduling point
 		lastSchedTick = ticks
